@@ -44,7 +44,7 @@ func replay(f lib.Flags) int {
 			c.D = fmt.Sprint(d)
 		}
 		o := c.runCode()
-		c.monitor(m, o)
+		c.safeMonitor(m, o)
 		fmt.Printf("replay %s -> code=%s\n", c.line(), o.text)
 	} else {
 		c := tcase{Op: op, A: fmt.Sprint(in["a"]), B: fmt.Sprint(in["b"])}
